@@ -180,26 +180,13 @@ def allProjectsGuarded (e : Endpoint) : Bool :=
   e.enforces.any (fun x => isAllProjectsGuard x.guard && x.rule == familyOf e ++ ":list:all_projects") &&
   e.allProjectsUsedBeforeGuard.isEmpty
 
-/-- The methods that accept `all_projects` but have no such rule (candidate defect D, confirmed
-    through the WSGI application: see known_findings.d/C16.json). -/
-def allProjectsUnguarded : List (String × String) :=
-  [("CodeSourcesController", "get_all"), ("DynamicActionsController", "get_all")]
-
-/-- Full-strength statement is FALSE of the current code. -/
-theorem all_projects_guarded_full_fails :
-    ¬ (∀ e ∈ endpoints, e.acceptsAllProjects = true → allProjectsGuarded e = true) := by
+/-- Every method that accepts `all_projects` is so guarded (full strength since the fix that added
+    `code_sources:list:all_projects` and `dynamic_actions:list:all_projects`). -/
+theorem all_projects_guarded :
+    ∀ e ∈ endpoints, e.acceptsAllProjects = true → allProjectsGuarded e = true := by
   decide +kernel
 
-theorem all_projects_guarded_partial :
-    ∀ e ∈ endpoints, e.acceptsAllProjects = true →
-      allProjectsUnguarded.contains (e.cls, e.method) = false → allProjectsGuarded e = true := by
-  decide +kernel
-
-/-- The exclusion list is exact: every excluded method really lacks the rule. -/
-theorem all_projects_unguarded_exact :
-    ∀ e ∈ endpoints, allProjectsUnguarded.contains (e.cls, e.method) = true →
-      e.acceptsAllProjects = true ∧ allProjectsGuarded e = false := by
-  decide +kernel
+example : (endpoints.filter (·.acceptsAllProjects)).length ≥ 6 := by decide +kernel
 
 /-- The cross-project listing rules (and only they carry that guard) are admin-only:
     their check string is `rule:admin_only`, which is `is_admin:True`. -/
@@ -216,11 +203,10 @@ example : ∃ e ∈ endpoints, ∃ x ∈ e.enforces, isAllProjectsGuard x.guard 
     decision of `handle` under "everything allowed except admin-only rules". -/
 theorem all_projects_denied_for_non_admin {α : Type} :
     ∀ e ∈ endpoints, e.acceptsAllProjects = true →
-      allProjectsUnguarded.contains (e.cls, e.method) = false →
       ∀ (body : α → Nat × α) (db : α),
         handle e (fun rule => Mistral.Gen.Policies.lookup rule != some "rule:admin_only")
           ⟨true, false, false⟩ body db = (403, db) := by
-  intro e he ha hn body db
+  intro e he ha body db
   apply handle_denied
   revert e
   decide +kernel
@@ -347,6 +333,21 @@ theorem unfinished_not_deletable_without_force (ex : Bool) (cur : String) :
         cur ∈ completedStates ∧ hasTask = false ∧ allowed = true ∧ ex = true) :=
   ⟨execDelete_spec ex cur, actionDelete_spec ex cur⟩
 
+/-- "without force" at the level of the request: an unfinished execution is deleted only when
+    the `force` argument is present and its text parses to true; a text such as `false`, `0`,
+    `no` never forces, and a text that is not a boolean is refused (regression for the wsme
+    `bool(text)` defect). -/
+theorem force_argument_parsed (ex : Bool) (cur : String) (force : Option String) :
+    execDeleteReq ex cur force = .res .deleted → ¬ cur ∈ completedStates →
+      ∃ t, force = some t ∧ boolFromString t = some true :=
+  execDeleteReq_spec ex cur force
+
+example : execDeleteReq true "RUNNING" (some "false") = .res .notAllowed := by decide
+example : execDeleteReq true "RUNNING" (some "0") = .res .notAllowed := by decide
+example : execDeleteReq true "PAUSED" (some "no") = .res .notAllowed := by decide
+example : execDeleteReq true "RUNNING" (some " TRUE ") = .res .deleted := by decide
+example : execDeleteReq true "RUNNING" (some "abc") = .badRequest := by decide
+example : execDeleteReq true "RUNNING" none = .res .notAllowed := by decide
 example : execDelete true "RUNNING" false = .notAllowed := by decide
 example : execDelete true "RUNNING" true = .deleted := by decide
 example : execDelete true "SUCCESS" false = .deleted := by decide
